@@ -302,43 +302,49 @@ inductive Ret
   | unit
   deriving DecidableEq, Repr
 
+/-- The first half of a call of the public API: the storage access under the entry lock and the
+message it buffers.  Returns the cache, the call's result, and whether the call goes on to
+`try_maintenance` (the listener-side operations `pin` / `unpin` do not touch the cache). -/
+def access {σ} (cfg : Cfg σ) (c : Cache σ) : Op → Cache σ × Ret × Bool
+  | .get k =>
+    ((if c.rbuf.length < cfg.rbufCap then { c with rbuf := c.rbuf ++ [k] } else c),
+      (match sGet c.core.st k with | some v => Ret.some v | none => Ret.none), true)
+  | .put k v =>
+    match sGet c.core.st k with
+    | some _ => ({ c with core := { c.core with st := sSet c.core.st k v } }, .updated, true)
+    | none => ({ c with core := { c.core with st := (k, v) :: c.core.st }, wbuf := c.wbuf ++ [.insert k] }, .inserted, true)
+  | .ins k v =>
+    match sGet c.core.st k with
+    | some w => (c, .occupied w, true)
+    | none => ({ c with core := { c.core with st := (k, v) :: c.core.st }, wbuf := c.wbuf ++ [.insert k] }, .inserted, true)
+  | .upd k v =>
+    match sGet c.core.st k with
+    | some _ => ({ c with core := { c.core with st := sSet c.core.st k v } }, .updated, true)
+    | none => (c, .absent, true)
+  | .rem k =>
+    match sGet c.core.st k with
+    | some w => ({ c with core := { c.core with st := sDel c.core.st k }, wbuf := c.wbuf ++ [.removed k] }, .removed w, true)
+    | none => (c, .absent, true)
+  | .peek k =>
+    match sGet c.core.st k with
+    | some w => (c, .some w, true)
+    | none => (c, .none, true)
+  | .pin t => ({ c with pins := t :: c.pins }, .unit, false)
+  | .unpin t => ({ c with pins := c.pins.erase t }, .unit, false)
+  | .unpinNotify k => ({ c with pins := c.pins.erase k, wbuf := c.wbuf ++ [.unpinned k] }, .unit, true)
+  | .notify k => ({ c with wbuf := c.wbuf ++ [.unpinned k] }, .unit, true)
+
+/-- the cache with an empty removal-closure log (the log is per call) -/
+def Cache.clearLog {σ} (c : Cache σ) : Cache σ := { c with core := { c.core with log := [] } }
+
 /-- One call of the public API: the storage access, the buffered message, `try_maintenance`.
 Returns the new cache, the call's result and the removal-closure log of this call. -/
 def step {σ} (cfg : Cfg σ) (c : Cache σ) (op : Op) : Except Panic (Cache σ × Ret × List (Nat × Bool)) :=
-  let c := { c with core := { c.core with log := [] } }
-  let fin (c : Cache σ) (r : Ret) : Except Panic (Cache σ × Ret × List (Nat × Bool)) :=
-    match tryMaintenance cfg c with
-    | .ok c => .ok (c, r, c.core.log)
+  if (access cfg c.clearLog op).2.2 then
+    match tryMaintenance cfg (access cfg c.clearLog op).1 with
+    | .ok c' => .ok (c', (access cfg c.clearLog op).2.1, c'.core.log)
     | .error e => .error e
-  match op with
-  | .get k =>
-    let r := match sGet c.core.st k with | some v => Ret.some v | none => Ret.none
-    let c := if c.rbuf.length < cfg.rbufCap then { c with rbuf := c.rbuf ++ [k] } else c
-    fin c r
-  | .put k v =>
-    match sGet c.core.st k with
-    | some _ => fin { c with core := { c.core with st := sSet c.core.st k v } } .updated
-    | none => fin { c with core := { c.core with st := (k, v) :: c.core.st }, wbuf := c.wbuf ++ [.insert k] } .inserted
-  | .ins k v =>
-    match sGet c.core.st k with
-    | some w => fin c (.occupied w)
-    | none => fin { c with core := { c.core with st := (k, v) :: c.core.st }, wbuf := c.wbuf ++ [.insert k] } .inserted
-  | .upd k v =>
-    match sGet c.core.st k with
-    | some _ => fin { c with core := { c.core with st := sSet c.core.st k v } } .updated
-    | none => fin c .absent
-  | .rem k =>
-    match sGet c.core.st k with
-    | some w => fin { c with core := { c.core with st := sDel c.core.st k }, wbuf := c.wbuf ++ [.removed k] } (.removed w)
-    | none => fin c .absent
-  | .peek k =>
-    match sGet c.core.st k with
-    | some w => fin c (.some w)
-    | none => fin c .none
-  | .pin t => .ok ({ c with pins := t :: c.pins }, .unit, [])
-  | .unpin t => .ok ({ c with pins := c.pins.erase t }, .unit, [])
-  | .unpinNotify k => fin { c with pins := c.pins.erase k, wbuf := c.wbuf ++ [.unpinned k] } .unit
-  | .notify k => fin { c with wbuf := c.wbuf ++ [.unpinned k] } .unit
+  else .ok ((access cfg c.clearLog op).1, (access cfg c.clearLog op).2.1, [])
 
 /-- Runs a whole history; `.error` as soon as one call panics. -/
 def run {σ} (cfg : Cfg σ) : Cache σ → List Op → Except Panic (Cache σ)
